@@ -11,6 +11,7 @@ pub mod c12;
 pub mod c13;
 pub mod c18;
 pub mod c19;
+pub mod giant;
 pub mod long;
 pub mod sweep;
 
@@ -72,6 +73,7 @@ pub fn run<A: Cx>(name: &str, seed: u64, scale: usize, stream: Option<&str>) -> 
         "c19trim" => c19::run_trim(&mut d, scale, 60),
         "c20" => c07::run(&mut d, scale, false, true),
         "c20all" => c07::run(&mut d, scale, true, true),
+        o if o.starts_with("giant_") => giant::run(&mut d, &o[6..], scale),
         o if o.starts_with("sweep_") => sweep::run(&mut d, &o[6..], scale),
         o if o.starts_with("long_") => {
             // long_<focus>: e.g. long_c06; world::canon_scenario looks at the focus
